@@ -58,6 +58,16 @@ def native_replay(path):
             rdoc['inputs'] = rdoc.get('first')
             rdoc['outcome'] = rdoc.get('repro')
             return (1 if rdoc.get('reproduced') else 0), rdoc
+        if doc0.get('native_tool'):
+            # P1 (C04): replay = look the table entry up in the real fpy2 objects (tools/c04_tables_native.py)
+            out = subprocess.run([VENV_PY, os.path.join(ROOT, 'tools', 'c04_tables_native.py'), json.dumps(doc0['native_tool'])],
+                                 capture_output=True, text=True, timeout=120, env=dict(os.environ, FPY_REPO=REPO))
+            rdoc = json.loads(out.stdout.strip().split('\n')[-1])
+            rdoc['verdict'] = 'contract-violated' if rdoc.get('reproduced') else 'holds'
+            rdoc['failed'] = [doc0.get('obligation')] if rdoc.get('reproduced') else []
+            rdoc['inputs'] = rdoc.get('first')
+            rdoc['outcome'] = rdoc.get('program_result') or rdoc.get('repro')
+            return (1 if rdoc.get('reproduced') else 0), rdoc
         out = subprocess.run([VENV_PY, os.path.join(ROOT, 'replay.py'), path], capture_output=True, text=True,
                              timeout=120, env=dict(os.environ, FPY_REPO=REPO))
         try:
@@ -162,7 +172,8 @@ def main(argv=None):
         names = [n for n, c in ex0.contracts.items() if prop in c.props]
         if a.only:
             names = [n for n in names if n in a.only or ex0.contracts[n].short in a.only]
-        if not names and not (prop == 'C03' and a.only and 'ConstTable_T4' in a.only):
+        if not names and not (prop == 'C03' and a.only and 'ConstTable_T4' in a.only) \
+                and not (prop == 'C04' and a.only and 'OpTables_P1' in a.only):
             print(f'no contracts for {prop}')
             return 3
         tier_opts = {'timeout_ms': 10000 if a.tier == 'quick' else 60000}
@@ -174,11 +185,15 @@ def main(argv=None):
             tier_opts['strict'] = True
         os.environ['VERIF_TIER'] = a.tier
         sym_names = [n for n in names if not (a.tier == 'quick' and ex0.contracts[n].opts.get('symbolic_tier') == 'thorough')]
-        reports, ex = run(mods, sym_names, procs=a.j, opts=tier_opts)
+        reports, ex = run(mods, sym_names, procs=a.j, opts=tier_opts) if sym_names else ([], ex0)
         if prop == 'C03' and (not a.only or 'ConstTable_T4' in a.only):
             # T4: syntactic obligations on gmp._constant_exprs (special-purpose checker, own obligations)
             from pyvc import consttable
             reports.append(consttable.run(REPO, search=False))
+        if prop == 'C04' and (not a.only or 'OpTables_P1' in a.only):
+            # P1: operator tables against the reference tables of spec/c04_tables.py (special-purpose checker)
+            from pyvc import optables
+            reports.append(optables.run(REPO))
     except Exception as e:
         print(f'CHECKER-CRASH {type(e).__name__}: {e}')
         traceback.print_exc()
@@ -241,6 +256,17 @@ def main(argv=None):
         open_.append(full)
         confirmed = []
         for i, ent in enumerate(o['open']):
+            if ent.get('status') == 'table-mismatch':
+                path = os.path.join(rdir, safe_name(full) + f'.{i}.json')
+                with open(path, 'w') as f:
+                    json.dump({'property': prop, 'obligation': o['name'], 'reason': ent['info'], 'where': ent['trace'],
+                               'native_tool': ent.get('native_tool')}, f, indent=1)
+                code, rdoc = native_replay(path) if ent.get('native_tool') else (0, {})
+                ent['replay'] = {'file': path, 'exit': code, 'verdict': rdoc.get('verdict'), 'failed': rdoc.get('failed'),
+                                 'outcome': rdoc.get('outcome'), 'inputs': rdoc.get('inputs'), 'result': rdoc.get('repro')}
+                if code == 1:
+                    confirmed.append((path, rdoc))
+                continue
             if ent.get('status') == 'syntactic-fail':
                 # T4: the failing input is searched natively, (precision, rounding mode) of the public const_* function
                 from pyvc import consttable
